@@ -30,7 +30,7 @@ SPEC = {
     'IPSecESP': ({'spi': (0, 32), 'seq_number': (32, 32)}, []),
     'RTP': ({'version': (0, 2), 'padding_bit': (2, 1), 'extension_bit': (3, 1), 'csrc_count': (4, 4), 'marker_bit': (8, 1), 'payload_type': (9, 7),
              'sequence_number': (16, 16), 'timestamp': (32, 32), 'ssrc_id': (64, 32)}, []),
-    'ICMPv6': ({'type': (0, 8), 'code': (8, 8)}, [2, 3]),
+    'ICMPv6': ({'type': (0, 8), 'code': (8, 8)}, [2, 3, 4]),       # octet 4 is the derived RFC 4884 length attribute for types 1 and 3
 }
 SPEC['TCP'][0]['flags'] = (100, 12)
 SPEC['DHCP'] = SPEC['BootP']
@@ -233,7 +233,8 @@ def run(ctx):
             derived = SPEC[cls][1]
             y1 = bytearray(bytes.fromhex(ser1.split()[2][1:]))
             y2 = bytearray(bytes.fromhex(ser2.split()[2][1:]))
-            if len(y1) == len(y2) and w == bits:
+            # (a setter whose parameter type is wider than the field, e.g. the one-bit DNS flags taking uint8_t, is checked with the values that fit)
+            if len(y1) == len(y2) and (w == bits or (w < bits and 0 <= wire_value(kind, bits, v) < (1 << w))):
                 exp_img = int.from_bytes(y1, 'big')
                 tot = len(y1) * 8
                 mask = ((1 << w) - 1) << (tot - off - w)
